@@ -560,6 +560,18 @@ def _avoid_ambiguous(model, ops):
             # no edits at the end of the predecessor of a proxied block
             for oi in lst:
                 ops[oi]["_drop"] = True
+    # a whole block deleted without retarget_to_proxy whose label is the
+    # target of a call, when the label slides into another function: whether
+    # that call now 'targets' the other function is not specified
+    call_targets = {t.target for _, u in model.units() for t in u.toks if t.kind == "insn" and t.ikind == "call" and t.target}
+    for oi, (key, off, length) in loc.items():
+        sp = model.spans[key]
+        if ops[oi]["k"] in ("delblock", "del") and not ops[oi].get("proxy") and length == sp.size and sp.kind == "code":
+            own = {t.name for _, u in model.units() for t in u.toks if t.kind == "label" and t.att is sp}
+            lst2 = model.span_list[sp.sect]
+            nxt = lst2[sp.order + 1] if sp.order + 1 < len(lst2) else None
+            if own & call_targets and (nxt is None or nxt.func != sp.func):
+                ops[oi]["_drop"] = True
     # a block deleted with retarget_to_proxy that calls itself: whether the
     # function still 'has a caller' afterwards is not specified
     toks = {t.id: t for _, u in model.units() for t in u.toks}
